@@ -19,7 +19,7 @@ RULE = ('seeded generator: planes with amplitude/OPD each scalar or 2-D, mask No
 ASSUMPTIONS = ['a plane with scalar amplitude, array OPD and no mask has no extent and is excluded (DESIGN.md C07)',
                'segment masks of one plane are pairwise disjoint']
 PLAN = {'quick': {'gen': 8}, 'thorough': {'gen': 16, 'tests': 1, 'docs': 1}}
-REQUIRED_BUCKETS = ['defaults', 'wf:many-fields', 'broadband', 'plane:reused', 'wf:chain-overlap', 'amp:scalar', 'amp:array', 'opd:scalar', 'opd:array', 'mask:none', 'mask:2d', 'mask:3d',
+REQUIRED_BUCKETS = ['defaults', 'reuse', 'wf:many-fields', 'broadband', 'plane:reused', 'wf:chain-overlap', 'amp:scalar', 'amp:array', 'opd:scalar', 'opd:array', 'mask:none', 'mask:2d', 'mask:3d',
                     'amp:scalar+mask:array', 'wf:default', 'wf:chain', 'wf:multi-field', 'wf:overlapping-fields',
                     'plane:default', 'pixelscale:mismatch', 'pixelscale:mismatch:scalar-plane', 'insert:weight0', 'insert:negative', 'pupil:focal', 'outside-mask:non-finite', 'mask:narrow-float']
 REQUIRED_ANCHORS = ['probe:Plane.multiply', 'probe:Pupil.multiply', 'probe:Wavefront.field',
